@@ -609,6 +609,7 @@ class Form(BaseForm):
 
     def _analyze_domains(self):
         """Analyze domains."""
+        from ufl.argument import BaseArgument
         from ufl.domain import join_domains, sort_domains
 
         # Collect integration domains.
@@ -627,6 +628,14 @@ class Form(BaseForm):
         ):
             domain = extract_unique_domain(o, expand_mesh_sequence=False)
             domains_in_integrands.update(domain.meshes)
+        # The function space and the argument slots of a base form operator are
+        # not operands, but their domains enter the signature
+        for o in self.base_form_operators():
+            for space in chain(
+                (o.ufl_function_space(),),
+                (a.ufl_function_space() for a in o.argument_slots() if isinstance(a, BaseArgument)),
+            ):
+                domains_in_integrands.update(space.ufl_domain().meshes)
         domains_in_integrands -= set(self._integration_domains)
         all_domains = self._integration_domains + sort_domains(
             join_domains(domains_in_extra_domain_integral_type_map | domains_in_integrands)
